@@ -3,7 +3,7 @@
 # natural detectors of cross-cutting changes (three scratch worktrees, three build tags).  usage: tools/seedsweep_par.sh [N]
 cd /verif
 N=${1:-3}
-declare -A EXTRA=( [C04_1]="C10" [C05_1]="C06" [C05_3]="C06 C07" [C08_3]="C09" [C11_1]="C12" [C11_3]="C12" [C14_1]="C07" [C16_1]="C07 C19" [C18_2]="C07" [C18_3]="C07 C05" [C15_4]="C03" [C02_3]="C01" [C01_5]="C07" [C05_5]="C06" [C09_5]="C06" [C08_6]="C16" [C16_5]="C19" [C02_6]="C01" [C03_6]="C15" [C12_6]="C11" [C06_8]="C19" [C11_7]="C12" [C12_8]="C11" [C18_7]="C07" [C01_9]="C14" [C15_9]="C16" [C16_10]="C19" )
+declare -A EXTRA=( [C04_1]="C10" [C05_1]="C06" [C05_3]="C06 C07" [C08_3]="C09" [C11_1]="C12" [C11_3]="C12" [C14_1]="C07" [C16_1]="C07 C19" [C18_2]="C07" [C18_3]="C07 C05" [C15_4]="C03" [C02_3]="C01" [C01_5]="C07" [C05_5]="C06" [C09_5]="C06" [C08_6]="C16" [C16_5]="C19" [C02_6]="C01" [C03_6]="C15" [C12_6]="C11" [C06_8]="C19" [C11_7]="C12" [C12_8]="C11" [C18_7]="C07" [C01_9]="C14" [C15_9]="C16" [C16_10]="C19" [C03_8]="C04 C10" [C15_8]="C19 C07" [C16_8]="C07" [C01_12]="C07" )
 ids=( $(ls -d seeded/C*/ | xargs -n1 basename | sort) )
 for k in $(seq 0 $((N-1))); do
   (
